@@ -1,3 +1,4 @@
+import Secp.Proofs.DriversFront
 import Secp.Proofs.DriversAdaptor
 import Secp.Proofs.DriversChild
 import Secp.Proofs.Bip32
@@ -108,5 +109,18 @@ theorem pubKeyBytes_regenerated (e : ExtKey) : Secp.Gen.Drivers.pubKeyBytes (tup
 theorem serializeCompressedEcdsa_regenerated (x y : Nat) :
     Secp.Gen.Drivers.serializeCompressedEcdsa ((), x, y) = serCompressedXY (x, y) :=
   Secp.Proofs.DriversChild.serializeCompressedEcdsa_regenerated x y
+
+/-- `Child` = `ChildWithIL` without the tweak; `FromSeed` and `Public()` regenerated = the models -/
+theorem child_front (O : Oracles) (k : Bytes × Nat × Bytes × Nat × Bytes × Bytes × Unit) (i : Nat) :
+    Secp.Gen.Drivers.childGen O k i = (match Secp.Gen.Drivers.childWithILGen O k i with
+      | .ok (_, ek) => DR.ok ek | .err e => DR.err e | .panic => DR.panic | .fuel => DR.fuel | .undef => DR.undef) :=
+  Secp.Proofs.DriversFront.child_front O k i
+
+theorem fromSeed_regenerated (O : Oracles) (seed ms : Bytes) :
+    Secp.Gen.Drivers.fromSeedGen O seed ms = (match fromSeed O seed ms with | .ok e => DR.ok (tup e) | .error err => DR.err err) :=
+  Secp.Proofs.DriversFront.fromSeed_regenerated O seed ms
+
+theorem public_regenerated (e : ExtKey) : Secp.Gen.Drivers.publicGen (tup e) = DR.ok (tup e.neuter) :=
+  Secp.Proofs.DriversFront.public_regenerated e
 
 end Secp.Props.C12
